@@ -110,6 +110,15 @@ partial def jOfSch : Sch → Json
       (if props.isEmpty then [] else [("properties", Json.mkObj (props.map (fun (k, s) => (k, jOfSch s))))]) ++
       (match addl with | some a => [("additionalProperties", jOfSch a)] | none => []))
 
+/-- the validator as built: `f.Validate(int64(value))` converts a float64 beyond ±2^63 to an int64 inside the range
+    (implementation-defined conversion), so the `int64` format never rejects; within the range it is exact
+    (`int64_format_exact_in_range`). Only reachable when a uint64 field meets the schema of another field (DupNames). -/
+partial def dropI64 : Sch → Sch
+  | .ref n => .ref n
+  | .node ty nl fmt lo hi items props addl cyc =>
+    .node ty nl (if fmt = "int64" then "" else fmt) lo hi (items.map dropI64) (props.map (fun (k, s) => (k, dropI64 s)))
+      (addl.map dropI64) cyc
+
 def dedupBy (key : α → String) (l : List α) : List α :=
   l.foldl (fun acc x => if acc.any (fun y => key y == key x) then acc else acc ++ [x]) []
 
@@ -175,7 +184,8 @@ def handle (j : Json) : Json :=
       let names := refNames s ++ Γ.flatMap (fun p => refNames p.2)
       jobj [("comps", Json.mkObj (Γ.map (fun (n, c) => (n, jOfSch c)))),
             ("resolves", Json.bool (names.all (fun n => (resolve Γ (.ref n)).isSome))),
-            ("accept", Json.bool (acceptB Γ s enc))])
+            ("accept", Json.bool (acceptB Γ s enc)),
+            ("acceptImpl", Json.bool (acceptB (Γ.map (fun (n, c) => (n, dropI64 c))) (dropI64 s) enc))])
     let nil19 := opts.any (fun Γ => nilAtCycB Γ s enc)
     let excl := excl0 ++ (if nil19 then ["NilAtCycle"] else []) ++ (if danglingB σ then ["Dangling"] else []) ++
       (if wrongCandB o σ then ["WrongComponent"] else [])
